@@ -218,7 +218,7 @@ func (w *World) MutateRoots(r *gen.Rand) {
 	n := r.Range(0, 3)
 	for i := 0; i < n; i++ {
 		insts := w.instList()
-		switch r.Intn(9) {
+		switch r.Intn(11) {
 		case 0:
 			w.addRepo(r)
 		case 1:
@@ -239,7 +239,7 @@ func (w *World) MutateRoots(r *gen.Rand) {
 					w.logf("update %s", in.Path)
 				}
 			}
-		case 4, 5, 6:
+		case 4, 5, 6, 9, 10:
 			// move to another root, same relative path: the repository keeps its name and changes its source
 			if len(insts) > 0 && len(w.Roots) > 1 {
 				in := gen.Pick(r, insts)
@@ -391,8 +391,9 @@ func (w *World) MutateIndex(r *gen.Rand) {
 // PickRoots chooses the root arguments of a sync command: a non-empty selection of the roots, sometimes a
 // sub-directory of a root (overlapping / narrower roots), sometimes a repeated root; some as paths relative to Base.
 func (w *World) PickRoots(r *gen.Rand) (abs []string, args []string) {
+	all := r.Chance(1, 2)
 	for _, rt := range w.Roots {
-		if r.Chance(3, 4) {
+		if all || r.Chance(2, 3) {
 			abs = append(abs, rt)
 		}
 	}
